@@ -224,6 +224,13 @@ def check_direct1d(case):
     else:
         state = [np.asarray(x, dtype=float) + np.zeros(n) for x in out]
     nt, w = judge_euler(g, bc, float(d), keep, state, par, "direct dir=%+d" % d)
+    # the SAME model object then serves the other side of the domain with the mirror-image interior state (a condition must not remember the side it saw first)
+    if bc != "dirichlet":
+        keep2 = [rho.copy(), -u.copy(), p.copy()]
+        out2 = model.namedBC(bc, -d, [x.copy() for x in keep2], dict(par, type=bc))
+        state2 = [np.asarray(x, dtype=float) + np.zeros(n) for x in out2]
+        _nt2, w2 = judge_euler(g, bc, float(-d), keep2, state2, par, "direct dir=%+d (same model object, after dir=%+d)" % (-d, d))
+        w = max(w, w2)
     target(w, "bc-error/tol")
     return dict(nontrivial=nt, labels=["bc:" + bc, "dir:%+d" % d, "supersonic" if np.any(np.abs(u) > c) else "subsonic"])
 
